@@ -7,8 +7,8 @@ PROPERTY = 'C20'
 META = {
     'functions_encoded': ['chython/utils/rdkit.py: to_rdkit_molecule, from_rdkit_molecule (RDKit itself is called concretely)',
                           'chython/algorithms/stereo.py: _translate_tetrahedron_sign, _translate_cis_trans_sign'],
-    'bounds': {'quick': 'every random-order spelling (random() symbolic) of 18 seeds both toolkits accept (carbon '
-                        'stereocentres, stereo double bonds, charges, isotopes, radicals, aromatic and Kekule form)',
+    'bounds': {'quick': 'every random-order spelling (random() symbolic) of 23 seeds both toolkits accept (carbon '
+                        'stereocentres with and without hydrogens written as atoms, coordinate bonds to a metal, stereo double bonds, charges, isotopes, radicals, aromatic and Kekule form)',
                'thorough': '30 seeds'},
     'outside_claim': ['RDKit is C++ behind FFI: only the order in which atoms and neighbours reach the bridge is explored by the '
                       'solver; allenes, coordinates, atom maps are checked on the seeds only'],
@@ -18,7 +18,8 @@ META = {
 
 SEEDS_Q = ['CCO', 'CC(=O)O', 'C[N+](C)(C)C', 'CC[O-]', '[13CH4]', 'C[CH]C', 'c1ccccc1', 'c1ccncc1', 'c1cc[nH]c1', 'C1CC1C',
            'C[C@H](N)O', 'F[C@](Cl)(Br)I', 'F/C=C/Cl', 'C[C@H](O)/C=C/F', 'C[C@H]1CCO1', 'C[C@]12CCC[C@H]1C2', 'CC(=O)[O-].[Na+]',
-           'F/C(Cl)=C(/Br)I']
+           'F/C(Cl)=C(/Br)I', '[H][C@](F)(Cl)Br', 'C[C@]([H])(N)C(=O)O', 'C[C@]([2H])(O)F', '[Pd]~P(C)(C)C',
+           'Cl[Pt](Cl)(~[NH3])~[NH3]']
 SEEDS_T = SEEDS_Q + ['c1ccc2ccccc2c1', 'OC(=O)[C@@H](N)CS', 'C/C=C/C=C\\C', 'C[C@H]1CC[C@@H](O)O1', 'N[C@@]1(C)CCCO1', 'CS(=O)(=O)C',
                      'C[C@H](O)[C@H](F)[C@@H](C)O', 'CC1C[C@@]12CCO2', 'C#N', 'C[Si](C)(C)C', 'B(O)O', 'O=C=O']
 
@@ -38,7 +39,21 @@ def h_bridge(V, smi, kekule=False, falsify=False):
             m.thiele()
     info = {'text': text, 'seed': smi}
     rd = to_rdkit_molecule(m)
-    ref_rd = Chem.MolFromSmiles(text.split()[0]) if ' ' not in text else None
+    ref_rd = None
+    if ' ' not in text and '~' not in text:      # RDKit writes coordinate bonds with a direction: no common spelling
+        ps = Chem.SmilesParserParams()
+        ps.removeHs = False                      # hydrogens written as atoms stay atoms on both sides
+        ref_rd = Chem.MolFromSmiles(text, ps)
+    METALS = {46, 78, 26, 29, 30}
+    for i, (n, a) in enumerate(m.atoms()):
+        V.prove(rd.GetAtomWithIdx(i).GetTotalNumHs() == (a.implicit_hydrogens or 0), 'RDKit atom has the hydrogen count of '
+                'the chython atom', dict(info, atom=n, got=rd.GetAtomWithIdx(i).GetTotalNumHs(), want=a.implicit_hydrogens))
+    for b in rd.GetBonds():
+        if b.GetBondType() == Chem.BondType.DATIVE:
+            V.prove(b.GetEndAtom().GetAtomicNum() in METALS and b.GetBeginAtom().GetAtomicNum() not in METALS,
+                    'a coordinate bond becomes an RDKit dative bond from the donor to the metal', info)
+    V.prove(sum(b.GetBondType() == Chem.BondType.DATIVE for b in rd.GetBonds()) == sum(b.order == 8 for *_, b in m.bonds()),
+            'every coordinate bond becomes a dative bond', info)
     maps = [a.GetAtomMapNum() for a in rd.GetAtoms()]
     V.prove(maps == list(m._atoms), 'atom numbers travel as RDKit atom maps', dict(info, got=maps))
     plain = Chem.Mol(rd)
